@@ -146,9 +146,9 @@ fn chk_rank<S: Rank + RankZero>(ctx: &mut Ctx, name: &str, s: &S, m: &Model, pos
             break;
         }
         let gz = s.rank_zero(p);
-        let ez = p.min(m.len()) - e;
-        // rank_zero(p) = p - rank(p) literally for p <= len; beyond len the property fixes min(p, len)
-        if p <= m.len() && gz != ez {
+        // rank_zero(p) = p - rank(p) for every p (the vector is virtually zero-extended, as the trait documents)
+        let ez = p - e;
+        if gz != ez {
             ctx.violation(&format!("C01|{name}|rank_zero"), format!("rank_zero({p}) = {gz} expected {ez}"));
             break;
         }
